@@ -13,10 +13,10 @@ func init() {
 
 // a validated leaf: which keyword it carries (symbolic value)
 type vLeafSpec struct {
-	kind   int // 0 string maxLength, 1 string minLength, 2 string pattern, 3 string enum, 4 integer maximum, 5 integer minimum (exclusive sym), 6 number multipleOf
-	i64    int64
-	f64    float64
-	excl   bool
+	kind int // 0 string maxLength, 1 string minLength, 2 string pattern, 3 string enum, 4 integer maximum, 5 integer minimum (exclusive sym), 6 number multipleOf
+	i64  int64
+	f64  float64
+	excl bool
 }
 
 func vMakeLeaf() (spec.Schema, vLeafSpec) {
